@@ -475,6 +475,29 @@ class Interp:
                 return d
         if isinstance(v, (Inst, Func, Bound, Kernel, Class)):
             return True
+        if isinstance(v, PW) and v.is_leaf() and v.leaf.is_poly():
+            # truthiness of a whole-array reduction symbol (np.max(x) / x.min() ...) of an array with >= 2 elements: both
+            # outcomes are feasible and neither pins an element, so both are analysed as separate cases
+            from .poly import as_poly
+            p = as_poly(v.leaf)
+            red = getattr(self.ext, "reductions", {})
+            if len(p.t) == 1:
+                (m, c), = p.t.items()
+                if len(m) == 1 and m[0][1] == 1 and m[0][0][0] == "s" and m[0][0][1] in red:
+                    name = m[0][0][1]
+                    arr = red[name][1]
+                    n_el = 1
+                    for sdim in arr.shape:
+                        sd = simplify_scalar(sdim)
+                        n_el = n_el * sd if isinstance(sd, int) and isinstance(n_el, int) else None
+                        if n_el is None:
+                            break
+                    if n_el is None or n_el >= 2:
+                        from .regions import CURRENT_CASE, NeedDecision
+                        d = CURRENT_CASE[0].decision(name)
+                        if d is None:
+                            raise NeedDecision(name, "%s at %s" % (name, self.where(st, ms)))
+                        return d
         raise Unsupported("undecidable branch condition %r at %s" % (v, self.where(st, ms)))
 
     # assumptions on symbols: every symbol is positive unless listed
